@@ -22,12 +22,13 @@ VARIABLES sc,        \* the scenario: [ep, st, cls]
 vars == <<sc, phase, step, alive, open, reply, rejected, sameOK, newOK>>
 Guard(g) == g \notin Weak
 
-TLVClasses == {"garbage", "truncated", "overlong_item", "dup_item", "missing_item", "short_enc", "wrong_tag", "empty_body", "unknown_method", "unknown_step", "huge"}
+TLVClasses == {"garbage", "truncated", "overlong_item", "dup_item", "missing_item", "short_enc", "wrong_tag", "empty_body", "unknown_method", "unknown_step", "huge",
+               "inner_damaged"}      \* a correctly sealed box whose inner TLV is damaged (missing / mis-sized key, signature, identifier; garbage)
 JSONClasses == {"not_json", "wrong_types", "huge_number", "deep_nesting", "composite_value", "composite_twice", "empty_body", "odd_query"}
 Scenarios ==
   [ep : {"pair-setup"}, st : {"fresh", "afterM2", "afterM4"}, cls : TLVClasses]
   \cup [ep : {"pair-verify"}, st : {"fresh", "afterV2"}, cls : TLVClasses]
-  \cup [ep : {"pairings"}, st : {"unverified", "verified"}, cls : TLVClasses \ {"short_enc", "wrong_tag"}]
+  \cup [ep : {"pairings"}, st : {"unverified", "verified"}, cls : TLVClasses \ {"short_enc", "wrong_tag", "inner_damaged"}]
   \cup [ep : {"characteristics-put", "characteristics-get", "resource", "accessories", "identify"}, st : {"unverified", "verified"}, cls : JSONClasses]
 
 Pairing == sc.ep \in {"pair-setup", "pair-verify"}
